@@ -96,6 +96,10 @@ def selection_product(tier: str, stats: Stats) -> list[Violation]:
     for typ, ops, sub, filt in itertools.product(['validating', 'mutating'], [None, ['CREATE'], ['DELETE'], ['CREATE', 'DELETE']],
                                                  [None, '*', 'status'], [False, True]):
         decl_space.append(dict(type=typ, operations=ops, subresource=sub, filtered=filt))
+        if ops == ['DELETE'] and sub is None:
+            # the same opt-in spelled otherwise: any collection of operations, or the deprecated singular kwarg
+            for form in ('tuple', 'set', 'frozenset', 'kwarg'):
+                decl_space.append(dict(type=typ, operations=ops, subresource=sub, filtered=filt, ops_form=form))
     outcome_sets = list(itertools.product(OUTCOMES, repeat=2)) if tier == 'quick' else list(itertools.product(OUTCOMES, repeat=3))
     requests = list(itertools.product(['CREATE', 'UPDATE', 'DELETE', 'CONNECT'], [None, 'status', 'scale'], [False, True]))
     # 1. every single declaration x every request x hint: who runs?
@@ -203,7 +207,11 @@ def _declare(reg: kopf.OperatorRegistry, hid: str, decl: dict, outcome: str, ran
     deco = kopf.on.validate if decl['type'] == 'validating' else kopf.on.mutate
     kw: dict[str, Any] = {}
     if decl.get('operations'):
-        kw['operations'] = decl['operations']
+        form = decl.get('ops_form', 'list')
+        if form == 'kwarg':
+            kw['operation'] = decl['operations'][0]
+        else:
+            kw['operations'] = {'list': list, 'tuple': tuple, 'set': set, 'frozenset': frozenset}[form](decl['operations'])
     if decl.get('subresource'):
         kw['subresource'] = decl['subresource']
     if decl.get('filtered'):
